@@ -101,7 +101,23 @@ def contract_text(sig, clauses, prop, linemap, lines, who, enforced=False):
     lines.append(';')
 
 
+def has_top_implication(e):
+    depth = 0
+    for i, ch in enumerate(e):
+        if ch in '([':
+            depth += 1
+        elif ch in ')]':
+            depth -= 1
+        elif depth == 0 and e.startswith('==>', i):
+            return True
+        elif depth == 0 and ch == '?':
+            return True
+    return False
+
+
 def split_and(e):
+    if has_top_implication(e):
+        return [e.strip()]
     out, depth, cur, i = [], 0, '', 0
     while i < len(e):
         ch = e[i]
@@ -271,9 +287,11 @@ def gen_unit(gen_dir, index, specs, fname, prop, path, extra_harness='', debug=F
     L.append('  G_P = nondet_vertex(); G_Q = nondet_vertex(); bg_exc = nondet_int();')
     if '__loop' in fname:
         # an outlined loop inherits the cache state of its caller: everything nondeterministic
-        L.append('  __CPROVER_havoc_object(&bg_scratch_row); bg_cur_adj = nondet_adjp(); bg_ghost_frontier.a = 0;')
+        L.append('  __CPROVER_havoc_object(&bg_scratch_row); bg_cur_adj = nondet_adjp();')
     else:
-        L.append('  bg_scratch_row.valid = nondet_bg_bool(); bg_scratch_row.owner = 0; bg_scratch_row.from = 0; bg_cur_adj = 0; bg_ghost_frontier.a = 0;')
+        L.append('  bg_scratch_row.valid = nondet_bg_bool(); bg_scratch_row.owner = 0; bg_scratch_row.from = 0; bg_cur_adj = 0;')
+    # the frontier is constrained by the contract (detached for most functions, attached for iterator steps)
+    L.append('  __CPROVER_havoc_object(&bg_ghost_frontier); bg_ghost_frontier.a = nondet_adjp();')
     for t in ('VLabel', 'NoLabel', 'uint', 'real'):
         L.append('  bg_scratch_val_%s.valid = 0; bg_scratch_val_%s.out = 0;' % (t, t))
     if extra_harness:
